@@ -87,11 +87,12 @@ impl TimeParser {
     fn normalize_integer_epoch(n: i128) -> Option<i64> {
         let abs = n.unsigned_abs();
         let digits = num_digits_u128(abs);
+        // Floor, like the ISO-8601 and float paths: an instant before 1970 maps to one second
         let secs = match digits {
-            0..=11 => n,                  // seconds (and small negatives)
-            12..=14 => n / 1_000,         // ms -> s
-            15..=16 => n / 1_000_000,     // µs -> s
-            17..=19 => n / 1_000_000_000, // ns -> s
+            0..=11 => n,                            // seconds (and small negatives)
+            12..=14 => n.div_euclid(1_000),         // ms -> s
+            15..=16 => n.div_euclid(1_000_000),     // µs -> s
+            17..=19 => n.div_euclid(1_000_000_000), // ns -> s
             _ => return None,
         };
         i64::try_from(secs).ok()
